@@ -246,6 +246,9 @@ def worker_main(prop, tier, w, nworkers, active, out_path, only=None):
             continue
 
         total = sub.budget[tier]
+        if total <= 0:
+            del res["subchecks"][sub.name]      # not part of this tier
+            continue
         per_worker = max(1, -(-total // nw))
         max_rounds = 2 if tier == "quick" else 4
         for rnd in range(max_rounds):
